@@ -10,7 +10,7 @@
    blocks (frame, Atropos, cheaters). *)
 From Coq Require Import NArith List Bool Lia ZifyN ZifyNat.
 From LV Require Import lib.Bytes model.Codec model.VecIndex model.Abft model.AbftRun spec.ElectionSpec
-  proofs.BftMono proofs.BftRun proofs.BftMain proofs.BftAccept proofs.BftProps proofs.LinkVals.
+  proofs.AbftBuild proofs.BftMono proofs.BftRun proofs.BftMain proofs.BftAccept proofs.BftProps proofs.LinkVals.
 Import ListNotations.
 Local Open Scope N_scope.
 
@@ -47,12 +47,14 @@ End Adapter.
 
 (* ---------- side conditions of the refinement ---------- *)
 (* Event ids are hashes in the implementation; IndexedLachesis.Build gives the speculative event a
-   temporary id (epoch | lamport | build counter).  An input event whose id has that shape could meet
-   a stale forkless-cause cache entry of an earlier Build: outside the property (and outside what
-   the abft worker's C07 theorems cover: proofs/AbftBuild.v, real_not_temp). *)
-Definition id_fresh (x : N) : Prop :=
-  forall ep lm c t, sample c = Some t -> x <> mk_id_bytes ep lm t.
-Definition ids_fresh (D : list fev) : Prop := forall e, In e D -> id_fresh (eid (fe e)).
+   temporary id (epoch | lamport | build counter in the 24 tail bytes).  An input event whose id has that
+   shape for one of the counters used during the run (1 .. number of events: one Build per event) could
+   meet a stale forkless-cause cache entry of an earlier Build: outside the property (and outside what
+   the abft worker's C07 theorems cover: proofs/AbftBuild.v, real_not_temp).
+   is_temp K x: x = mk_id_bytes ep lam (be 24 c) for some epoch, Lamport time and counter 1 <= c <= K,
+   i.e. the low 192 bits of x are a number between 1 and K. *)
+Definition id_fresh (K x : N) : Prop := ~ is_temp K x.
+Definition ids_fresh (D : list fev) : Prop := forall e, In e D -> id_fresh (N.of_nat (length D)) (eid (fe e)).
 
 (* the statement: on validator lists in canonical form with total weight < 2^31 (LinkVals.vals_ok)
    and inputs whose ids are not temporary ids (and fewer than 2^192 events: Build's counter is written
@@ -79,9 +81,11 @@ Definition C01_full_on (side : list (N * N) -> list fev -> Prop) (run : impl_mod
 
 Lemma link_side_sub vals D1 D2 : link_side vals D2 -> incl D1 D2 -> NoDup (ids_of D1) -> link_side vals D1.
 Proof.
-  intros [V [F L]] I ND. split; [exact V|]. split; [intros e He; apply F, I, He|].
+  intros [V [F L]] I ND.
   assert (NDD : NoDup D1) by (apply (NoDup_map_inv (fun e => eid (fe e))); exact ND).
-  pose proof (NoDup_incl_length NDD I). lia.
+  pose proof (NoDup_incl_length NDD I) as Len.
+  split; [exact V|]. split; [|lia].
+  intros e He (ep & lm & c & t & Bc & S & E). apply (F e (I e He)). exists ep, lm, c, t. split; [lia | auto].
 Qed.
 
 Theorem C01_on_from_refinement (side : list (N * N) -> list fev -> Prop) (run : impl_model) :
